@@ -25,15 +25,23 @@ MANIFEST = {
                  "second pass and of serialisation + fixed-point oracle on the real parser",
     "text": "Theorems in lean/Jap/Props/C10.lean prove, for every loader oracle, that adapting an adapted value returns it unchanged on the sub-grammar "
             "without Any/Set/non-string Literal inside Union members (with machine-checked counterexamples for each excluded construct) and that a result "
-            "is always accepted again on the whole grammar; the real parser is checked on every accepted generated case: validate passes, parse_object "
-            "returns the same typed value, dump/parse/dump is byte-identical, and its second pass and serialiser agree with the model.",
+            "is always accepted again on the whole grammar; these lift to the entry points: for values that are not strings `_check_type` is the "
+            "adapter, its result is a fixed point of `_check_type`, the validation pass of parse_object never rejects it and parse_object returns it "
+            "unchanged (C10_reparse_value / C10_validation_pass_accepts / C10_reparse_object); a result of a restricted string type is a fixed point "
+            "for every predicate; a restricted number type inside a Union is a machine-checked counterexample (open finding).  The real parser is "
+            "checked on every accepted generated case (restricted string/number types nested anywhere included): validate passes, parse_object "
+            "returns the same typed value, dump/parse/dump is byte-identical, and its second pass and serialiser agree with the model; parsers with "
+            "parse-time links (every ordered pair and random sets of single/multi-source links incl. all chain shapes, whatever link_arguments accepts) "
+            "are checked for the same fixed points.",
     "level_note": "Trusted: as C02. Parsers have one typed optional argument; groups, subcommands, dataclasses, subclass specs, paths and registered types "
-                  "are outside this engine (C01/C19/C20 cover their round trips).",
+                  "other than the restricted ones are outside this engine's theorems (C01/C19/C20 cover their round trips; the harness families of this "
+                  "check exercise them on the real parser).",
 }
 
 F_LIT = "C10-literal-pyeq-second-pass"
 F_SETCONV = "C10-union-set-dedup-second-pass"
 F_ANYUNION = "C10-union-any-second-pass"
+F_RNUMUNION = "C10-union-restricted-number-second-pass"
 F_UNIONSER = "C10-union-serialisation"
 F_DEFAULT = "C10-default-not-normalised"
 F_DUMPFLOAT = "C10-json-dump-nonfinite-float"
@@ -92,6 +100,20 @@ def nonfinite(j):
     return isinstance(j, dict) and "f" in j and j["f"] in ("inf", "-inf", "nan")
 
 
+def holds_restricted_instance(x, depth=0):
+    """does a serialised value still hold an instance of a restricted type class (a str / int / float SUBCLASS, which
+    yaml's safe dumper cannot represent)"""
+    if depth > 40:
+        return False
+    if isinstance(x, (str, int, float)) and not isinstance(x, bool):
+        return type(x) not in (str, int, float) and hasattr(type(x), "_type")
+    if isinstance(x, dict):
+        return any(holds_restricted_instance(v, depth + 1) for v in x.values())
+    if isinstance(x, (list, tuple, set)):
+        return any(holds_restricted_instance(v, depth + 1) for v in x)
+    return False
+
+
 # ---------------------------------------------------------------- second pass on the real code
 def second_pass(p, cfg):
     """all observations of the fixed-point property for one accepted configuration (snapshots only)"""
@@ -137,6 +159,7 @@ def second_pass(p, cfg):
             out["ser"] = {"ok": canon(enc(s))}
         except Unencodable as ex:
             out["ser"] = {"ok": {"unencodable": str(ex)}}
+        out["ser_restricted_instance"] = holds_restricted_instance(s)
     except ValueError:
         out["ser"] = {"err": "reject"}
     except Exception as ex:  # noqa: BLE001
@@ -153,6 +176,8 @@ def outside_proved_grammar(desc):
         return F_SETCONV
     if in_union_member(desc, lambda x: x == "any"):
         return F_ANYUNION
+    if in_union_member(desc, lambda x: isinstance(x, dict) and "rn" in x and x["rn"][0] != "str"):
+        return F_RNUMUNION        # `uSafe` keeps restricted types out of Union members (Lean: C10_idem_fails_rnum_union)
     return None
 
 
@@ -169,7 +194,7 @@ def nonplain_under_any(desc, v):
     """does a position typed Any (or a Union with an Any alternative) hold data that no dump format can write"""
     if desc == "any":
         return nonplain(v)
-    if isinstance(desc, str) or "lit" in desc or "e" in desc:
+    if isinstance(desc, str) or "lit" in desc or "e" in desc or "rn" in desc:
         return False
     if "u" in desc:
         if any(ty_has(m, lambda x: x == "any") for m in desc["u"]):
@@ -241,6 +266,12 @@ def judge(ctx: Ctx, rec, model_second, model_roundtrip):
             ctx.known(F_SETORDER, "a set is dumped in iteration order, which differs after re-parsing: %s" % jdump(first)[:60])
         elif nonplain_under_any(desc, first):
             ctx.hist("outside_quantifier", "non-plain data under Any")
+        elif has_union(desc) and isinstance(d, dict) and d.get("exc") in ("RepresenterError", "TypeError") and sp.get("ser_restricted_instance") \
+                and in_union_member(desc, lambda x: isinstance(x, dict) and "rn" in x) and ctx.is_open(F_UNIONSER):
+            # the serialiser of the Union stopped at a member that returns foreign values unchanged (an Enum), so the
+            # instance of the restricted class stays in the data and the yaml dumper cannot represent it (row 5f:
+            # `Union[Color, NotEmptyStr]`); the wire form cannot show it (an instance is its plain value there)
+            ctx.known(F_UNIONSER, "dump raises: the Union serialiser left an instance of a restricted type in the data: %s" % jdump(desc)[:90])
         elif has_union(desc) and model_roundtrip is not None and ctx.is_open(F_UNIONSER) and (
                 model_roundtrip == "unrepresentable" or jdump(model_roundtrip) != jdump({"ok": first})):
             ctx.known(F_UNIONSER, "dump/parse/dump differs as the model of the Union serialiser predicts: %s value %s" % (jdump(desc)[:90], jdump(first)[:50]))
@@ -279,6 +310,39 @@ DEFAULT_FAMILY = [
     ({"u": ["int", "str"]}, 1, [1, "1", "x"]),
     ({"u": ["none", {"tv": "int"}]}, {"t": [1, 2]}, [[1, 2], {"t": [1, 2]}, None, [3]]),
 ]
+
+
+# ---------------------------------------------------------------- two-member Unions of scalar-like types, every order
+SCALAR_PROBES = [0, 1, -3, True, {"f": "2.0"}, {"f": "0.5"}, {"f": "-0.0"}, {"f": "1e+16"}, "2.0", "1.0", "1e3", "-0.0", "0.5", "2", " 7 ", "01", "0x10",
+                 "1_0", "true", "off", "null", "~", "a", "red", "00ff", "", "1.", ".5", "+1", "1e-2", "inf", ".inf", "nan"]
+
+
+def union_scalar_probes(thorough=False):
+    """[(desc, channel, input, origin)]: every ORDERED pair of scalar-like members (leaf types, a mixed Literal, an Enum, restricted
+    int / float / string types) as a Union, against a list of scalars in the spellings that one member takes raw and another
+    after a conversion (whole-valued floats as text, ints as text with blanks / leading zeros / underscores, bool words,
+    null words) - as values and as argument text.  A second pass that converts once more shows up here whatever VERIF_SEED is."""
+    rt = c02.rt
+    idx = {rt.declared(k)[0]: k for k in range(rt.N_TYPES)}
+    members = ["int", "float", "bool", "str", rt.desc(idx["lib:PositiveInt"]), rt.desc(idx["lib:NonNegativeFloat"]), rt.desc(idx["C02Hex"])]
+    if thorough:
+        members += [{"lit": [1, "a"]}, c02.enum_desc(0)]
+    out = []
+    for i, a in enumerate(members):
+        for j, b in enumerate(members):
+            if i == j:
+                continue
+            try:
+                desc = c02.normalise({"u": [a, b]})
+            except Exception:  # noqa: BLE001
+                continue
+            if not (isinstance(desc, dict) and "u" in desc and len(desc["u"]) == 2):
+                continue
+            for v in SCALAR_PROBES:
+                out.append((desc, "obj", v, "union-scalar-probe"))
+                if isinstance(v, str) and v != "":
+                    out.append((desc, "arg", v, "union-scalar-probe-text"))
+    return out
 
 
 def default_family(ctx: Ctx):
@@ -954,6 +1018,139 @@ def subclass_family(ctx: Ctx):
     ctx.extra["subclass_family_cases"] = n
 
 
+# ---------------------------------------------------------------- parse-time links (session 2)
+# Links applied on parse are applied once per parse, in definition order; the result is a fixed point only because
+# `link_arguments` refuses chains at definition time (a target that is a source of another link, a source that is a
+# target).  The family defines random sets of links - single and multi source, with and without compute_fn, targets at
+# the top level and inside a subclass argument's init_args, among them every kind of chain - in random order, keeps
+# whatever the definition accepts, and checks the fixed-point property on what the parser then returns.
+def _lk_mul(a, b):
+    return a * b
+
+
+def _lk_add(a, b):
+    return a + b
+
+
+def _lk_twice(a):
+    return 2 * a
+
+
+LINK_POOL = [
+    (("dim",), "model.init_args.width", None),
+    (("batch",), "budget", None),
+    (("scale",), "model.init_args.depth", _lk_twice),
+    (("batch", "model.init_args.width"), "budget", _lk_mul),
+    (("scale", "dim"), "total", _lk_add),
+    (("batch", "scale"), "model.init_args.depth", _lk_add),
+    (("model.init_args.width",), "total", None),
+    (("dim", "budget"), "total", _lk_add),
+    (("budget",), "total", _lk_twice),
+    (("total", "scale"), "budget", _lk_mul),
+    (("dim",), "scale", None),
+    (("model.init_args.depth", "model.init_args.width"), "total", _lk_mul),
+    (("dim", "model.init_args.depth"), "budget", _lk_add),
+    (("batch",), "model.init_args.depth", None),
+]
+
+
+def link_parser(order):
+    """(parser, indices of the links the definition accepted, in definition order)"""
+    from jsonargparse import ArgumentParser, Namespace
+
+    mod, name, _ = family_module()
+    p = ArgumentParser(exit_on_error=False, default_env=False)
+    p.add_argument("--batch", type=int, default=4)
+    p.add_argument("--dim", type=int, default=16)
+    p.add_argument("--scale", type=int, default=2)
+    p.add_argument("--budget", type=int, default=0)
+    p.add_argument("--total", type=int, default=0)
+    p.add_subclass_arguments(mod.Base, "model", default=Namespace(class_path=name + ".Base"))
+    accepted = []
+    for i in order:
+        src, tgt, fn = LINK_POOL[i]
+        try:
+            p.link_arguments(src if len(src) > 1 else src[0], tgt, compute_fn=fn)
+            accepted.append(i)
+        except Exception:  # noqa: BLE001 - the definition refuses the link (chains, duplicate targets): that is its job
+            pass
+    return p, accepted
+
+
+def link_case(order, inp, channel):
+    """observations of one parse with links, or None when the parse itself is refused"""
+    import json
+
+    from jsonargparse import ArgumentError
+
+    p, accepted = link_parser(order)
+    if not accepted:
+        return None, accepted
+    try:
+        if channel == "object":
+            cfg = p.parse_object(copy.deepcopy(inp))
+        elif channel == "string":
+            cfg = p.parse_string(json.dumps(inp))
+        else:
+            cfg = p.parse_args(["--%s=%s" % (k, v) for k, v in inp.items()])
+    except ArgumentError:
+        return None, accepted
+    cfg = cfg.clone()
+    out = {"first": canon_cfg(cfg)}
+    try:
+        p.validate(cfg.clone())
+        out["validate"] = "ok"
+    except Exception as ex:  # noqa: BLE001
+        out["validate"] = "raises:" + type(ex).__name__
+    try:
+        out["reparse"] = {"ok": canon_cfg(p.parse_object(cfg.clone()))}
+    except ArgumentError as ex:
+        out["reparse"] = {"err": "reject", "msg": str(ex)[:160]}
+    except Exception as ex:  # noqa: BLE001
+        out["reparse"] = {"err": "crash:" + type(ex).__name__}
+    for fmt in ("yaml", "json"):
+        try:
+            d1 = p.dump(cfg.clone(), format=fmt)
+            d2 = p.dump(p.parse_string(d1), format=fmt)
+            out["dump_" + fmt] = "same" if d1 == d2 else {"d1": d1, "d2": d2}
+        except Exception as ex:  # noqa: BLE001
+            out["dump_" + fmt] = {"exc": type(ex).__name__, "msg": str(ex)[:160]}
+    return out, accepted
+
+
+def link_orders(ctx: Ctx):
+    """every ordered pair of links of the pool (all two-link chains in both definition orders) and random longer sets"""
+    import itertools
+
+    n = len(LINK_POOL)
+    orders = [list(pr) for pr in itertools.permutations(range(n), 2)]
+    for _ in range(ctx.budget(60, 600)):
+        orders.append(ctx.rng.sample(range(n), ctx.rng.randint(3, 5)))
+    return orders
+
+
+def link_family(ctx: Ctx):
+    cases = 0
+    for order in link_orders(ctx):
+        inp = {"batch": ctx.rng.choice([1, 3, 8]), "dim": ctx.rng.choice([5, 64]), "scale": ctx.rng.choice([1, 7])}
+        channel = ctx.rng.choice(["object", "object", "string", "args"])
+        sp, accepted = link_case(order, inp, channel)
+        ctx.count()
+        ctx.hist("link_family", "links accepted: %d of %d" % (len(accepted), len(order)))
+        if sp is None:
+            ctx.hist("link_family", "no link accepted" if not accepted else "parse refused")
+            continue
+        cases += 1
+        ctx.count(4)
+        ctx.nontrivial(jdump(["links", accepted, inp, channel]))
+        for what, got in fixed_point_deviations(sp):
+            ctx.violation("the result of a parse with parse-time links is not a fixed point (%s)" % what,
+                          {"kind": "links", "order": order, "accepted": accepted, "input": inp, "channel": channel, "what": what,
+                           "links": [[list(LINK_POOL[i][0]), LINK_POOL[i][1]] for i in accepted], "first": sp["first"], "got": got})
+            break
+    ctx.extra["link_family_cases"] = cases
+
+
 # ---------------------------------------------------------------- dict values given as a file path (metadata kept)
 def whole_cfg(cfg):
     """type-aware snapshot of the whole configuration INCLUDING metadata (`__path__` entries inside dict values)"""
@@ -1146,6 +1343,8 @@ def run(ctx: Ctx):
                 "model's second pass / serialiser compared with the real ones; non-trivial = accepted non-null result whose first pass changed the "
                 "input (a conversion happened) or that is a container; distinct by canonical JSON of (type, result)")
     ctx.assumptions = list(c02_assumptions()) + [
+        "parse-time links: a fixed parser (three int sources, two int targets, a subclass-typed argument with two int init_args) and a pool of 14 "
+        "links; the definitions that link_arguments refuses are skipped - the fixed-point property is required of every set of links it accepts",
         "equality of configurations is judged on the typed canonical form (1, 1.0 and True are different values), stricter than Python ==",
         "values at positions typed Any (or Union[..., Any]) are plain data (no Enum members, sets, tuples) for the dump round trip",
         "when a result holds a set with two or more elements, second-pass/serialiser outputs that depend on list(set) order are not compared",
@@ -1169,7 +1368,7 @@ def run(ctx: Ctx):
             corpus.append((case["desc"], case["channel"], case["input"], "corpus"))
     n_types = ctx.budget(260, 2600) * (2 if ctx.search_boost > 1 else 1)
     gen, _ = c02.generated_cases(ctx, n_types, 3 if not ctx.thorough else 4, 0)
-    cases = corpus + gen
+    cases = corpus + gen + union_scalar_probes(ctx.thorough)
     if ctx.thorough:
         cases += c02.exhaustive_small(ctx)
 
@@ -1196,7 +1395,7 @@ def run(ctx: Ctx):
         if isinstance(first, (list, dict)) or jdump(first) != jdump(canon(inp) if ch == "obj" else inp):
             ctx.nontrivial(jdump([desc, first]))
         try:
-            items.append({"t": desc, "v": sp["first_iter"], "o": c02.build_tables(first), "want": ["parseObj", "ser"]})
+            items.append({"t": desc, "v": sp["first_iter"], "o": c02.tables_for(desc, first, sp["first_iter"]), "want": ["parseObj", "ser"]})
             metas.append((desc, ch, inp, origin, sp))
         except Unencodable:
             judge(ctx, (desc, ch, inp, origin, sp), None, None)
@@ -1231,7 +1430,7 @@ def run(ctx: Ctx):
                 continue
             try:
                 pl = plain_of(sers[i]["ok"])
-                rt_items.append({"t": desc, "v": pl, "o": c02.build_tables(pl), "want": ["parseObj"]})
+                rt_items.append({"t": desc, "v": pl, "o": c02.tables_for(desc, pl), "want": ["parseObj"]})
                 rt_idx.append(i)
             except (ValueError, Unencodable):
                 roundtrip[i] = "unrepresentable"
@@ -1261,6 +1460,7 @@ def run(ctx: Ctx):
     registered_family(ctx)
     registered_correspondence(ctx)
     subclass_family(ctx)
+    link_family(ctx)
     path_family(ctx)
     history_family(ctx)
 
@@ -1295,6 +1495,11 @@ def replay_case(ctx: Ctx, rp, quiet=False):
         sp = subclass_case(rp["position"], rp["value"], rp["with_default"], rp["channel"])
         say(jdump(sp)[:2000])
         return sp is not None and any(w == rp["what"] for w, _ in fixed_point_deviations(sp))
+    if kind == "links":
+        sp, acc = link_case(rp["order"], rp["input"], rp["channel"])
+        say("links accepted by the definition:", acc)
+        say(jdump(sp)[:2000])
+        return sp is not None and any(w == rp["what"] for w, _ in fixed_point_deviations(sp))
     if kind == "registered":
         sp = registered_case(rp["type"], rp["position"], rp["how"], rp["index"])
         say(jdump(sp)[:1500])
@@ -1321,7 +1526,7 @@ def replay_case(ctx: Ctx, rp, quiet=False):
         fmts = [rp["format"]] if "format" in rp else ["yaml", "json"]
         return any(sp["dump_" + f] != "same" for f in fmts)
     if kind == "corr":
-        r = ctx.driver("Adapt", [{"t": rp["desc"], "v": sp["first"], "o": c02.build_tables(sp["first"]), "want": ["parseObj", "ser"]}])[0]
+        r = ctx.driver("Adapt", [{"t": rp["desc"], "v": sp["first"], "o": c02.tables_for(rp["desc"], sp["first"]), "want": ["parseObj", "ser"]}])[0]
         say("model:", jdump(r))
         return jdump(c02.model_obs(r, "obj")) != jdump(sp["reparse"])
     raise MachineryError("unknown replay kind " + kind)
